@@ -254,7 +254,8 @@ func (f *memFile) Type() os.FileMode {
 }
 
 func (f *memFile) Info() (os.FileInfo, error) {
-	return f.Stat()
+	// Info describes the directory entry, the file doesn't have to be open.
+	return f, nil
 }
 
 func (f *memFile) Slice(start int64, end int64) ([]byte, error) {
